@@ -29,6 +29,8 @@ func c02RuleAlphabet() []c02RuleVar {
 		}
 	}
 	out = append(out, c02RuleVar{kind: "pat", pattern: 3, noBody: true})
+	// a rule that changes the current root / element: roots selected by different selectors, and ENDFILE's view, must not leak into each other
+	out = append(out, c02RuleVar{kind: "pat", signal: "mutate"})
 	return out
 }
 
@@ -39,6 +41,9 @@ func (r c02RuleVar) String() string {
 		if r.noBody {
 			s = "$>1"
 		}
+	}
+	if r.signal == "mutate" {
+		return "mutate"
 	}
 	if r.signal != "" {
 		s += "+" + r.signal
@@ -73,6 +78,11 @@ func c02Rule(v c02RuleVar, id int, withIndex bool) *Rule {
 		}
 	}
 	body := []Stmt{Pr(args...)}
+	if v.signal == "mutate" {
+		// store into the element when it is a container, replace it otherwise
+		body = append(body, &If{Cond: &IsExpr{V("$"), "object"}, Then: Blk(Ex(Asg("=", Mem(V("$"), "touched"), S(fmt.Sprintf("r%d", id)))), Ex(Asg("=", Idx(Mem(V("$"), "a"), N("0")), N("99")))),
+			Else: &If{Cond: &IsExpr{V("$"), "array"}, Then: Blk(Ex(CallE(Mem(V("$"), "push"), S(fmt.Sprintf("r%d", id))))), Else: Blk(Ex(Asg("=", V("$"), Arr_(V("$"), S("replaced")))))}})
+	}
 	switch v.signal {
 	case "next":
 		body = append(body, &Next{})
@@ -88,7 +98,7 @@ func c02Rule(v c02RuleVar, id int, withIndex bool) *Rule {
 func c02Valid(seq []int, alpha []c02RuleVar) bool {
 	sig := 0
 	for i, k := range seq {
-		if alpha[k].signal != "" {
+		if alpha[k].signal != "" && alpha[k].signal != "mutate" {
 			sig++
 		}
 		if alpha[k].noBody && i+1 < len(seq) {
@@ -220,6 +230,8 @@ func c02RichPrograms(alpha []c02RuleVar) [][]int {
 		return out
 	}
 	return [][]int{
+		mk("BEGINFILE", "mutate", "{}", "ENDFILE", "END"),
+		mk("mutate", "mutate", "ENDFILE"),
 		mk("BEGIN", "BEGINFILE", "{}", "ENDFILE", "END"),
 		mk("END", "ENDFILE", "true{}", "BEGINFILE", "BEGIN", "BEGIN", "END"),
 		mk("BEGINFILE", "BEGINFILE", "{}+next", "{}", "ENDFILE", "ENDFILE"),
@@ -240,7 +252,7 @@ func init() {
 	n := len(alpha)
 	fw.Register(&fw.Prop{
 		ID: "C02",
-		Rule: "rule sequences over 21 rule variants (BEGIN/END/BEGINFILE/ENDFILE with and without exit; pattern-less, true, false and $>1 pattern rules with nothing, next or exit; a body-less pattern rule), every body printing its rule number, $, $file (and $index when every root is an array); " +
+		Rule: "rule sequences over 22 rule variants (BEGIN/END/BEGINFILE/ENDFILE with and without exit; pattern-less, true, false and $>1 pattern rules with nothing, next or exit; a body-less pattern rule, a rule that mutates $), every body printing its rule number, $, $file (and $index when every root is an array); " +
 			"(A) all sequences of <= N rules on three rich configurations, (B) 12 fixed rich programs on all 915 configurations (0-2 files x 13 file contents incl. empty, two values and all root shapes x 5 selector lists), (C) all sequences of <= M rules on all configurations; " +
 			"oracle: the schedule model of DESIGN.md 3.13 (exact stdout, outcome and JSON output); a state is the order in which rule kinds fired; non-trivial = same",
 		Plan: func(t fw.Tier) int { return n*n + len(c02Configs()) },
